@@ -27,6 +27,17 @@ CHECKS = {
    note="Trusted: Coq kernel + VM; hand-written device model (Model/Device.v) compared per event with the implementation; Go channel semantics of the buffered signal channel. No axioms.",
    technique="Coq proof by case analysis of the step function lifted to histories + per-event differential correspondence",
    design="§5 C14"),
+ "C20": dict(
+   text="Proof: Coq theorems over all handler lists (unbounded, by induction): the groups partition the handlers (Permutation, NoDup of "
+        "locations, no empty group), two handlers share a device iff equal physical location, each handler is in exactly one device, the "
+        "device type rule (joystick if any joystick-like handler, else keyboard if any standard keyboard, else not playable), order-freedom "
+        "(Permutation l l' -> same set of (location, multiset of handlers, type)) and that HandlerType depends only on the SET of capabilities "
+        "(C20_partition, C20_same_phys, C20_type, C20_order_free, C20_handler_type_set, plus a monitor proved equivalent to the grouping "
+        "predicate). Tie to /repo: the real input.Normalize / HandlerType run on all n! orders of multisets up to 5 handlers and on random "
+        "larger multisets, all 512 capability subsets; monitor and view comparison evaluated in coqc on the observed devices.",
+   note="Trusted: Coq kernel + VM; hand-written model of Normalize/HandlerType/DetermineDeviceType; evdev.Open failing on synthetic handlers (they are still grouped); Device.ID (taken from the first-discovered handler) is outside the view. No axioms.",
+   technique="Coq proof by induction over handler lists + exhaustive-permutation differential correspondence",
+   design="§5 C20"),
 }
 
 def main():
